@@ -71,6 +71,14 @@ const COMMENTS: &[&str] = &[
     "/--/",
     "-- a -/ b\n",
     "/- -- not a line comment -/ -/",
+    // comment text that looks like code: delimiters, keywords, annotation brackets, string quotes
+    "-- see [note] ) } end\n",
+    "/- keep [as written] ( { -/",
+    "--| doc ] with @[format(verbatim)] inside\n",
+    "-- \"unterminated string\n",
+    "/- end that in => -/",
+    "--\n--\n",
+    "-- last line empty\n--\n",
 ];
 
 /// Positions (byte offsets of token starts) where a full term may start: after `=>`, `in`, `that`, `;`, `{`, `<-`.
@@ -345,17 +353,24 @@ pub fn atom_stream(text: &str) -> Vec<Atom> {
                         // pun normalisation: `ID = ID` (comments allowed in between; a comment there is
                         // what keeps the formatter from punning) counts as the comments, then ID once —
                         // the same stream the pun spelling `= ID` yields
+                        // `ID )* = comments (* ID`: the pun spelling `= ID` and the explicit spelling `ID = ID` are
+                        // the same field; the formatter converts between them (a comment keeps it from punning)
+                        // and adds or removes redundant parentheses around either side, so those are skipped.
+                        // The rule is context free on purpose: it reads input and output alike.
                         let mut j = i + 1;
                         let mut between: Vec<Atom> = vec![];
                         let mut seen_eq = false;
                         let mut matched = None;
                         while j < items.len() {
                             match &items[j] {
+                                // (comments may sit on either side of the `=`: the formatter moves them across it)
                                 | Item::Com(c) => between.push(Atom::Comment(c.kind, norm_comment(c.kind, &text[c.start..c.end]))),
                                 | Item::Tok(k2) => {
                                     let s2 = &text[k2.start..k2.end];
-                                    if !seen_eq && s2 == "=" {
+                                    if !seen_eq && s2 == ")" {
+                                    } else if !seen_eq && s2 == "=" {
                                         seen_eq = true;
+                                    } else if seen_eq && s2 == "(" {
                                     } else if seen_eq && s2 == s && matches!(k2.kind, Kind::Upper | Kind::Lower) {
                                         matched = Some(j);
                                         break;
@@ -366,12 +381,7 @@ pub fn atom_stream(text: &str) -> Vec<Atom> {
                             }
                             j += 1;
                         }
-                        // a pun is a whole tuple/field component: `(` `,` `;` or the field's `/` before it and `,` `;` `)` after it
-                        let prev_tok = items[..i].iter().rev().find_map(|it| tok_text(it)).map(|t| t.1);
-                        let matched = matched.filter(|j| {
-                            let next_tok = items[*j + 1..].iter().find_map(|it| tok_text(it)).map(|t| t.1);
-                            matches!(prev_tok, Some("(") | Some(",") | Some(";") | Some("/") | Some("=")) && matches!(next_tok, Some(")") | Some(",") | Some(";") | Some(":"))
-                        });
+                        let _ = &tok_text;
                         if let Some(j) = matched {
                             out.extend(between);
                             out.push(Atom::Ident(s.to_string()));
